@@ -200,7 +200,7 @@ def _rejected(op: str, bad_i: int, sa: bool, sb: bool, sl: bool, si: bool, x: in
 
 def _mk_rej(op: str):
     @obligation(prop="C06", name="rejected_" + op, group="rejected_assignment", sites=("unchanged",), encodes=ENC,
-                budget={"quick": 200, "thorough": 500},
+                budget={"quick": 400, "thorough": 800},
                 examples=({"bad_i": 0, "sa": True, "sb": False, "sl": False, "si": True, "x": 3},),
                 what="from an arbitrary valid state (which fields are user-defined is symbolic) one REJECTED "
                      "operation of kind %s with 5 offending value shapes leaves values at all depths, "
@@ -230,7 +230,7 @@ def _doc_tree():
 @obligation(prop="C06", sites=("unchanged",), stubs=("FakeFS", "MemFormat"),
             encodes=["cincoconfig.core.Config.loads", "cincoconfig.core.Config._process_includes",
                      "cincoconfig.fields.include_field.IncludeField.include"],
-            budget={"quick": 120, "thorough": 300},
+            budget={"quick": 300, "thorough": 600},
             examples=({"where": 0, "kind": 0, "sa": True, "sb": False, "x": 1},
                       {"where": 1, "kind": 2, "sa": False, "sb": True, "x": 1}),
             what="Config.loads whose include file (root or nested scope) is missing / a directory / unreadable / not "
@@ -306,7 +306,7 @@ def _mk_trunc(fmt: str, chunk: int):
 
     @obligation(prop="C06", name="truncated_document_%s_%d" % (fmt, chunk), group="truncated_document_" + fmt,
                 sites=("unchanged",), encodes=["cincoconfig.core.Config.loads"],
-                budget={"quick": 500, "thorough": 800},
+                budget={"quick": 900, "thorough": 1500},
                 what="a valid %s document truncated at every index k in [%d,%d) (k decided by the solver over its "
                      "finite domain; the parser itself is C / third-party code and runs concretely), wrong XML root, "
                      "undecodable bytes: a load that fails to PARSE leaves the configuration unchanged (loads that "
